@@ -246,6 +246,12 @@ func checkC03(c *Ctx) {
 	// R03.5: "returned immediately while the build runs in background": that build is not tied to the caller's context, which is
 	// typically cancelled right after Get returned (C06 R06.4)
 	c.borrow("C06", func() { c.c06Detached() }, func(o *coreObl) (string, bool) { return "R03.5", o.Rule == "R06.4" })
+	for _, sib := range siblings {
+		if fo := c.failover(sib); fo.Err == nil {
+			fo := fo
+			c.borrowKinds("C06", func() { c.c06Sibling(fo) }, "R03.5", sib+".Get:background-build-detached", []string{"R06.4"}, "bg-ctx-not-detached")
+		}
+	}
 	// R03.4: "whether a failure is cached for the key" — the failure cache holds a build failure for FailedUpdateTTL: written under a
 	// private default-TTL cell (not the caller's TTL), the cell being what WithTTL(ctx, DefaultTTL, false) installs, with the
 	// configured/default FailedUpdateTTL as the cache's TimeToLive
